@@ -433,7 +433,7 @@ def run_check(C, tier, seed, replay=None):
     suites = C.get("suites")
     if suites is None and C.get("correspondence"):
         s0 = dict(C["correspondence"])
-        for k in ("gen", "nontrivial", "classify", "oracle_ok", "rule", "exhaustive", "finding_matches"):
+        for k in ("gen", "nontrivial", "classify", "oracle_ok", "rule", "exhaustive", "finding_matches", "corr_eq", "n_samples", "timeout"):
             if k in C:
                 s0[k] = C[k]
         s0.setdefault("name", prop.lower())
@@ -496,7 +496,7 @@ def run_check(C, tier, seed, replay=None):
             if S["nontrivial"](case, i_line, m_res, o_res):
                 distinct_nt.add(case)
             prop_ok = oracle_ok(case, i_line, o_res)
-            corr_ok = (m_line == "-") or (i_line == m_res)
+            corr_ok = (m_line == "-") or S.get("corr_eq", lambda c, i, m: i == m)(case, i_line, m_res)
             if prop_ok and corr_ok:
                 continue
             n_disagree += 1
